@@ -54,15 +54,22 @@ class Analysis:
         owner = self.p.enclosing_self_class(fn)
         return Callee(fn, owner.qn if owner else None)
 
-    def paths(self, callee: Callee, which: str = None) -> List[Path]:
-        """rule paths of a function (helpers inlined transparently), memoised"""
-        key = callee.key() + (which,)
+    def paths(self, callee: Callee, which: str = None, loop_bound: int = None) -> List[Path]:
+        """rule paths of a function (helpers inlined transparently), memoised;
+        ``loop_bound`` lowers the number of unrolled iterations for branch-heavy loops"""
+        key = callee.key() + (which, loop_bound)
         found = self._rule_paths.get(key)
         if found is None:
             it = self.rit
             assume = it.assume_for(callee, which) if which else None
             hole = it._default_hole_ev if callee.fn.kind == 'ctxgen' else None
-            found = it.paths_of(callee, assume, hole, which)
+            saved = it.loop_bound
+            if loop_bound is not None:
+                it.loop_bound = loop_bound
+            try:
+                found = it.paths_of(callee, assume, hole, which)
+            finally:
+                it.loop_bound = saved
             if len(found) > 20000:
                 raise AnalysisError('too many paths in %s' % callee)
             self._rule_paths[key] = found
